@@ -1,5 +1,6 @@
 import SaModel.Lemmas.C18Blame
 import SaModel.Lemmas.C01Comp
+import SaModel.Lemmas.C01ObsComp
 /-
 C18, blame against the specification: the non-recursive parts (one successful push, nulls, list / fixed-size list
 rows, bytes into lists), with the element loops as hypotheses.
@@ -9,21 +10,21 @@ open SaModel SaModel.Build SaModel.Spec
 
 /-- one successful push: the invariants survive and the head room shrinks by at most the size of the value
 (soundness R2 + completeness, used as black boxes) -/
-theorem push_step {ext : Ext} {x : SVal} {b b' : B} {dt n md} (hg : Good b dt n md) (hraw : noRaw x = true)
-    (hcap : vsize ext x ≤ room b) (h : push ext b x = .ok b') : Good b' dt n md ∧ room b ≤ room b' + vsize ext x := by
+theorem push_step {ext : Ext} {x : SVal} {b b' : B} {dt n md} (hg : GoodH b dt n md) (hraw : noRaw x = true)
+    (hcap : vsize ext x ≤ room b) (h : push ext b x = .ok b') : GoodH b' dt n md ∧ room b ≤ room b' + vsize ext x := by
   refine ⟨hg.push hraw h, ?_⟩
-  obtain ⟨_, _, _, lv, _, hlv⟩ := C01.push_interp ext x b b' dt n md (noRaw_ssa x hraw) (Or.inl hraw) hg.wf hg.safe hg.shape h
-  obtain ⟨b'', h2, hr⟩ := Build.push_complete ext x hraw b dt n md lv hg hcap hlv
+  obtain ⟨_, _, _, lv, _, hlv⟩ := C01.push_interp' ext x b b' dt n md (noRaw_ssa x hraw) (Or.inl hraw) hg.wf hg.nd hg.shape h
+  obtain ⟨b'', h2, hr⟩ := Build.push_completeH ext x hraw b dt n md lv hg hcap hlv
   rw [h] at h2; cases h2; exact hr
 
 /-- a representable value that fits is accepted: nothing to blame -/
-theorem bl_of_interp_ok {ext : Ext} {x : SVal} {b : B} {dt n md} {S : List String} (hg : Good b dt n md)
+theorem bl_of_interp_ok {ext : Ext} {x : SVal} {b : B} {dt n md} {S : List String} (hg : GoodH b dt n md)
     (hraw : noRaw x = true) (hcap : vsize ext x ≤ room b) (hi : (interpDT ext dt n md x).isOk = true) :
     Bl S (push ext b x) := by
   cases hlv : interpDT ext dt n md x with
   | error e => rw [hlv] at hi; cases hi
   | ok lv =>
-    obtain ⟨b', h, _⟩ := Build.push_complete ext x hraw b dt n md lv hg hcap hlv
+    obtain ⟨b', h, _⟩ := Build.push_completeH ext x hraw b dt n md lv hg hcap hlv
     exact Bl.of_eq_ok h
 
 theorem bind_err_plain {α β} {r : R α} {f : α → R β} {msg : String} (h : (r >>= f) = .error (.err msg)) :
@@ -37,14 +38,14 @@ theorem not_isOk_false {α} {r : R α} (h : ¬ r.isOk = true) : r.isOk = false :
 
 /-! ### children of list-like builders -/
 
-theorem Good.list_el {p large fm v offs el dt n md cname cdt cn cmd}
-    (hg : Good (.list p large fm v offs el) dt n md)
+theorem GoodH.list_el {p large fm v offs el dt n md cname cdt cn cmd}
+    (hg : GoodH (.list p large fm v offs el) dt n md)
     (hdt : dt = (if large then .largeList (.mk cname cdt cn cmd) else .list (.mk cname cdt cn cmd)))
-    (hsel : Shape el cdt cn cmd) : Good el cdt cn cmd := by
+    (hsel : Shape el cdt cn cmd) : GoodH el cdt cn cmd := by
   have hw := hg.wf
-  simp only [WFB] at hw
-  have hsafe := hg.safe
-  simp only [Safe] at hsafe
+  simp only [WFH] at hw
+  have hsafe := hg.nd
+  simp only [NoDictKey] at hsafe
   have ht := hg.tot
   subst hdt
   exact ⟨hw.2.2, hsafe, hsel, by cases large <;> simpa [total, totalF] using ht⟩
@@ -69,7 +70,7 @@ theorem setValidity_false_some {v : Validity} {i : Nat} {v' : Validity} (h : set
   | none => simp [setValidity, SaModel.fail] at h
   | some _ => rfl
 
-theorem pushNone_bl {b : B} {path dt n md} (hg : Good b dt n md) (ha : At path dt n md b) : Bl [path] (pushNone b) := by
+theorem pushNone_bl {b : B} {path dt n md} (hg : GoodH b dt n md) (ha : At path dt n md b) : Bl [path] (pushNone b) := by
   have hp := ha.path
   have hself : b.path ∈ [path] := by rw [hp]; exact List.mem_singleton.2 rfl
   cases b with
@@ -87,7 +88,7 @@ theorem pushNone_bl {b : B} {path dt n md} (hg : Good b dt n md) (ha : At path d
     refine Bl.ctx_self _ hself (Bl.bind (NoCtx.bl _) fun v' hv => ?_)
     have hsome := setValidity_false_some hv
     have hw := hg.wf
-    simp only [WFB] at hw
+    simp only [WFH] at hw
     have hsh := hg.shape
     simp only [Shape] at hsh
     obtain ⟨hn, cname, cdt, cn, cmd, rfl, hsel⟩ := hsh
@@ -97,7 +98,7 @@ theorem pushNone_bl {b : B} {path dt n md} (hg : Good b dt n md) (ha : At path d
       have := ht.2
       rw [← hn, hsome] at this
       simpa [defOKF] using this
-    obtain ⟨el', he, _⟩ := pushDefaultK_total el k cdt cn cmd hw.2.2 hsel hd
+    obtain ⟨el', he, _⟩ := pushDefaultK_totalH el k cdt cn cmd hw.2.2 hsel hd
     rw [he]
     exact Bl.of_ok _
   | struct p len v fs cached next seen =>
@@ -105,7 +106,7 @@ theorem pushNone_bl {b : B} {path dt n md} (hg : Good b dt n md) (ha : At path d
     refine Bl.ctx_self _ hself (Bl.bind (NoCtx.bl _) fun v' hv => ?_)
     have hsome := setValidity_false_some hv
     have hw := hg.wf
-    simp only [WFB] at hw
+    simp only [WFH] at hw
     have hsh := hg.shape
     simp only [Shape] at hsh
     obtain ⟨hn, sfs, rfl, hsl⟩ := hsh
@@ -115,7 +116,7 @@ theorem pushNone_bl {b : B} {path dt n md} (hg : Good b dt n md) (ha : At path d
       have := ht.2
       rw [← hn, hsome] at this
       simpa using this
-    obtain ⟨fs', he, _⟩ := pushDefaultKAll_total fs 1 sfs len hw.2.1 hsl hd
+    obtain ⟨fs', he, _⟩ := pushDefaultKAll_totalH fs 1 sfs len hw.2.1 hsl hd
     rw [he]
     exact Bl.of_ok _
   | dictionary p idx vals index =>
@@ -204,12 +205,12 @@ theorem mem_ite_inner {path : String} {inner : List String} : ∀ q ∈ inner, q
 `element` -/
 theorem list_row_bl {ext : Ext} {xs : SVals} {pe : Bool → B → List Int → R (B × List Int)} {pc : B → Nat → R (B × Nat)}
     {pt : SS → R SS} {bytes : R Bytes} {k : SeqKind} {p large fm v offs el} {inner : List String}
-    (hw : WFB (.list p large fm v offs el)) (hcap : vsizes ext xs + 1 ≤ room (.list p large fm v offs el))
+    (hw : WFH (.list p large fm v offs el)) (hcap : vsizes ext xs + 1 ≤ room (.list p large fm v offs el))
     (hpe : ∀ offs' (l : Int), offs'.getLast? = some l → 0 ≤ l → l + xs.length ≤ 2147483647 →
       Bl inner (pe large el offs') ∧ ∀ msg, pe large el offs' ≠ .error (.err msg)) :
     Bl (if inner.isEmpty then [p] else inner)
       (ctx (B.list p large fm v offs el).ann (seqLikeWith pe pc pt bytes (.list p large fm v offs el) k)) := by
-  simp only [WFB] at hw
+  simp only [WFH] at hw
   have hlast := hw.1.2.1
   have hln : lastNat offs = (dec el).length := by simp [lastNat_of_getLast hlast]
   simp only [room, hln, LIM] at hcap
